@@ -13,6 +13,24 @@ PROOF_NOTE = ("Trusted: Lean 4.33 kernel + axioms propext/Classical.choice/Quot.
               "tables/constants (Strophe/Gen). ")
 
 CLAIMED = {
+    "C15": dict(
+        engine="dns", design="5.15",
+        technique="Lean 4 theorems (memory safety as unreachability of oobRead/oobWrite for every buffer, outcome consistency, sort correctness+stability, decode_correct against a relational RFC 1035 spec) + differential correspondence",
+        text=("decode_safe (no out-of-bounds read/write for ANY buffer; no 32-bit cursor wrap below 2^32-2^17 bytes), "
+              "outcome_consistent, sort_correct/sort_stable, decode_correct (any compression, any record mix) proved in Lean "
+              "over a model mirroring resolver.c function by function with checked accessors; termination by Lean's own "
+              "termination check (no fuel). Tied to resolver.c every run: captured packets + all truncations, encoder-built "
+              "valid responses checked against an independent Python reference, forged counts/lengths/pointers, under ASan."),
+        note=PROOF_NOTE + "HAVE_CARES undefined; WfResponse excludes 'labels followed by a pointer to the root label' (trailing-dot quirk, stated as a theorem)."),
+    "C17": dict(
+        engine="hash", design="5.17",
+        technique="Lean 4 theorems (streaming = standard hash of the concatenation for every chunk list; exact bit counters incl. 2^32 carry; HMAC = RFC 2104) + differential correspondence + hashlib three-way comparison",
+        text=("For SHA-1, SHA-256, SHA-512, MD5: final(foldl update init chunks) = Spec.hash(chunks.flatten) for EVERY list of chunks "
+              "(models mirror the C contexts: count[2]/length, curlen, buffer); bit counter = 8*len mod 2^64 incl. carry; "
+              "crypto_HMAC = RFC 2104; xmpp_sha1 API = lower-case hex. Round constants/IVs regenerated from the C sources "
+              "and pinned; compression functions validated by FIPS/RFC vectors in the kernel and by run-time comparison with "
+              "Python hashlib; counters near 2^32/2^64 reached by injecting block-aligned counts into real contexts."),
+        note=PROOF_NOTE + "Compression functions are shared between model and spec (validated by vectors + hashlib); little-endian host."),
     "C18": dict(
         engine="b64", design="5.18",
         technique="Lean 4 theorems (decoder = strict RFC 4648 decoder on every string; round trip; tables = RFC alphabet) + differential correspondence + exhaustive small-alphabet enumeration",
